@@ -218,4 +218,35 @@ func dumpFullModel(o *Obl) {
 	res, _ := exec.Command("z3-new", "-T:30", in).CombinedOutput()
 	os.WriteFile(out, res, 0o644)
 	fmt.Printf("        full model: %s (query %s)\n", out, in)
+	// path: blocks of the top function whose reachability constant is true in the model
+	model := string(res)
+	var lines []string
+	for term, info := range o.ctx.reachInfo {
+		name := strings.Trim(term, "|")
+		idx := strings.Index(model, "(define-fun "+name+" ()")
+		if idx < 0 {
+			idx = strings.Index(model, "(define-fun |"+name+"| ()")
+		}
+		if idx < 0 {
+			continue
+		}
+		seg := model[idx:]
+		if nl := strings.Index(seg, "\n"); nl >= 0 {
+			seg2 := seg[nl+1:]
+			if e2 := strings.Index(seg2, "\n"); e2 >= 0 {
+				if strings.Contains(seg2[:e2], "true") {
+					lines = append(lines, info)
+				}
+			}
+		}
+	}
+	sort.Slice(lines, func(i, j int) bool {
+		var a, b int
+		fmt.Sscanf(lines[i], "b%d", &a)
+		fmt.Sscanf(lines[j], "b%d", &b)
+		return a < b
+	})
+	for _, l := range lines {
+		fmt.Printf("        path: %s\n", l)
+	}
 }
